@@ -606,6 +606,26 @@ func c10Decode(c *core.Ctx, k *core.Case) {
 	if !bytes.Equal(backing, orig) {
 		c.Fail(k, "input-follows-message:"+epNames[ep], "flipping every octet of the decoded message changed the input")
 	}
+	// what the decoded message owns: appending to any of its buffers must not reach another one
+	if ch, _ := appendProbe(reflect.ValueOf(m)); ch {
+		c.Fail(k, "decoded-slices-share-capacity:"+epNames[ep], fmt.Sprintf("appending to one buffer of the message decoded from %s changed another part of the message", hx(orig)))
+	}
+	// what n octets decode to depends on those n octets only, not on the memory behind them
+	if len(orig) <= 4096 && !capacityIndependent(orig, func(b []byte) uint64 {
+		mm := nas.NewMessage()
+		var e error
+		switch ep {
+		case epPlain:
+			e = mm.PlainNasDecode(&b)
+		case epGmm:
+			e = mm.GmmMessageDecode(&b)
+		default:
+			e = mm.GsmMessageDecode(&b)
+		}
+		return digestOf(e, mm)
+	}) {
+		c.Fail(k, "decode-depends-on-capacity:"+epNames[ep], fmt.Sprintf("the %d octets %s decode differently from a slice of exactly that capacity and from the prefix of a larger array", len(orig), hx(orig)))
+	}
 	// the decoded message is the caller's: overwrite every scalar in it, then the
 	// same octets must still decode to what they decoded to before. A decoder that
 	// hands out pointers into package state (preallocated values, caches) fails here.
